@@ -219,6 +219,7 @@ class ApiModel:
     op_set_multi = op_set_many
 
     def op_cas(self, key, value, cas, expire=0, noreply=False, flags=None):
+        noreply = bool(noreply)
         r = self._store("cas", key, value, expire, noreply, flags, cas=cas)
         if noreply:
             return ("return", True)
@@ -286,6 +287,7 @@ class ApiModel:
     op_delete_multi = op_delete_many
 
     def _arith(self, sign, key, value, noreply=False):
+        noreply = bool(noreply)      # an explicit None is falsy: the reply is awaited
         wk = self.wire(key)
         it = self.look(wk)
         if it is None:
